@@ -59,7 +59,7 @@ ASSUMPTIONS = [
 
 
 def budget(tier):
-    return int(os.environ.get("VERIF_BUDGET", 0)) or {"quick": 800, "thorough": 12000}[tier]
+    return int(os.environ.get("VERIF_BUDGET", 0)) or {"quick": 1000, "thorough": 12000}[tier]
 
 
 # ================================================================== case generation
@@ -89,6 +89,7 @@ RECIPES = [
     [["@data", {"variant": "events"}], ["add_peripheral_compartment", {}]],
     [["set_first_order_absorption", {}], ["@data", {"variant": "time-hhmm"}]],
 ]
+DATA_RECIPES = [i for i, r in enumerate(RECIPES) if any(step[0] == "@data" for step in r)]
 OBJECT_KINDS = ["parameter", "parameters", "columninfo", "datainfo", "frozenmapping", "eststep", "steps", "normal", "joint",
                 "rvs", "compartment", "odes", "statements", "assignment", "model_dataset", "model_iie", "varlevel"]
 
@@ -143,6 +144,15 @@ def corpus_cases():
         {"kind": "call", "fn": "add_time_after_dose", "recipe": 0, "seed": 7},
         {"kind": "call", "fn": "set_dataset", "recipe": 0, "seed": 8},
         {"kind": "call", "fn": "write_csv", "recipe": 0, "seed": 9},
+        # open finding: lag time left on CENTRAL after the dose moved to TRANSIT1
+        {"kind": "call", "fn": "set_transit_compartments", "recipe": 10, "seed": 325059778},
+    ] + [
+        # time/date translation on datasets with NM-TRAN clock strings (with a DATE column, with it marked
+        # dropped, with it removed, without one): the paths of translate_nmtran_time that the plain example never takes
+        {"kind": "call", "fn": fn, "recipe": rec, "seed": 10 + rec}
+        for fn in ("translate_nmtran_time", "add_time_after_dose", "convert_model", "get_doseid", "expand_additional_doses",
+                   "add_admid", "add_cmt", "remove_loq_data", "transform_blq", "set_lloq_data")
+        for rec in DATA_RECIPES
     ]
 
 
